@@ -39,15 +39,15 @@ theorem Inv.setInitWin {d : Dir α} {L : Ledger} {H : Hist α} (h : Inv d L H) (
     Inv (d.setInitWin order v).1 (L.addEmitted (d.setInitWin order v).2) (H.addOut (d.setInitWin order v).2) :=
   ⟨h.book.setInitWin order v, AllStuck.setInitWin d order v, h.fifo.setInitWin order v⟩
 
-theorem Inv.applySettings {o : Dir α} {L : Ledger} {H : Hist α} (h : Inv o L H) (ord : Nat → List Nat)
+theorem Inv.applyEach {o : Dir α} {L : Ledger} {H : Hist α} (h : Inv o L H) (ord : Nat → List Nat)
     (k : Nat) (kvs : List (Nat × Nat)) :
-    Inv (applySettings o ord k kvs).1 (L.addEmitted (applySettings o ord k kvs).2)
-      (H.addOut (applySettings o ord k kvs).2) := by
+    Inv (applyEach o ord k kvs).1 (L.addEmitted (applyEach o ord k kvs).2)
+      (H.addOut (applyEach o ord k kvs).2) := by
   induction kvs generalizing o L H k with
   | nil => exact h
   | cons kv rest ih =>
     obtain ⟨id, v⟩ := kv
-    simp only [H2.applySettings]
+    simp only [H2.applyEach]
     split
     · simp only []
       rw [Ledger.addEmitted_append, Hist.addOut_append]
@@ -57,6 +57,13 @@ theorem Inv.applySettings {o : Dir α} {L : Ledger} {H : Hist α} (h : Inv o L H
       · split
         · exact ih (h.congr (d' := { o with tableSize := v }) rfl rfl rfl) k
         · exact ih h k
+
+/-- `relay.applySettings` keeps the invariants of the direction it acts on -/
+theorem Inv.applySettings {o : Dir α} {L : Ledger} {H : Hist α} (h : Inv o L H) (ord : Nat → List Nat)
+    (kvs : List (Nat × Nat)) :
+    Inv (applySettings o ord kvs).1 (L.addEmitted (applySettings o ord kvs).2)
+      (H.addOut (applySettings o ord kvs).2) :=
+  h.applyEach ord 0 (inForce kvs)
 
 theorem Inv.header {d : Dir α} {L : Ledger} {H : Hist α} (h : Inv d L H) (sid : Nat) (block : List α) (es : Bool) (p : Prio) :
     Inv (d.header sid block es p).1 (L.addEmitted (d.header sid block es p).2)
@@ -116,7 +123,7 @@ theorem Inv.process {d o : Dir α} {Ld Lo : Ledger} {Hd Ho : Hist α} (hd : Inv 
   | priority sid prio => exact ⟨hd.enqEmit _, ho⟩
   | rst sid code => exact ⟨hd.enqEmit _, ho⟩
   | windowUpdate sid inc => exact ⟨hd, ho.windowUpdate (ord 0) sid inc⟩
-  | settings kvs => exact ⟨hd, ho.applySettings ord 0 kvs⟩
+  | settings kvs => exact ⟨hd, ho.applySettings ord kvs⟩
   | settingsAck => exact ⟨hd, ho⟩
   | ping ack data => exact ⟨hd, ho⟩
   | goAway last code debug => exact ⟨hd, ho⟩
